@@ -1,5 +1,4 @@
 import MjProof.Model.Name
-import MjProof.Gen.NameOrder
 import Drivers.Common
 /-
 Line protocol (stateful; same as harness/c/c34_name.c):
@@ -37,11 +36,6 @@ def hex (b : Bytes) : String :=
   if b = [] then "-" else String.ofList (b.flatMap fun c => [hexDigit (c.toNat / 16), hexDigit (c.toNat % 16)])
 
 def joinOrDash (l : List String) : String := if l = [] then "-" else ",".intercalate l
-
-def lm : Nat := Gen.NameOrder.loadMultiples.headD 0
-def params : Params := { lm := lm, hash := hashString Gen.NameOrder.hashInit Gen.NameOrder.hashShift }
-def gchain : List Entry :=
-  Gen.NameOrder.getnumadrChain.map fun (cs, c, a) => { cases := cs.map Int.ofNat, cntField := c, adrField := a }
 
 def fieldId (name : String) : Option Nat :=
   let rec go : List String → Nat → Option Nat
@@ -85,7 +79,7 @@ def step (st : Option CModel) (line : String) : Option CModel × String :=
     | [_, ord] =>
       match parseLists (words ord) none [] with
       | some (mn, acc) =>
-        match copyNames params Gen.NameOrder.copyNamesChain Gen.NameOrder.makeModelSum mn (listsOf acc) with
+        match Tree.build mn (listsOf acc) with
         | some m => (some m, dump m)
         | none => (none, "ub")
       | none => (st, "bad-op")
@@ -94,7 +88,7 @@ def step (st : Option CModel) (line : String) : Option CModel × String :=
     match st, t.toInt?, unhex s with
     | some m, some t, some q =>
       if t < -1000 ∨ t > 1000 then (st, "bad-op") else
-      match name2id params gchain m t q with
+      match Tree.name2id m t q with
       | some r => (st, toString r)
       | none => (st, "ub")
     | _, _, _ => (st, "bad-op")
@@ -102,7 +96,7 @@ def step (st : Option CModel) (line : String) : Option CModel × String :=
     match st, t.toInt?, id.toInt? with
     | some m, some t, some id =>
       if t < -1000 ∨ t > 1000 ∨ id < -2000000000 ∨ id > 2000000000 then (st, "bad-op") else
-      match id2name params gchain m t id with
+      match Tree.id2name m t id with
       | some (some b) => (st, hex b)
       | some none => (st, "null")
       | none => (st, "ub")
@@ -111,7 +105,7 @@ def step (st : Option CModel) (line : String) : Option CModel × String :=
     match unhex s, n.toNat? with
     | some b, some n =>
       if n = 0 ∨ n ≥ 2 ^ 64 then (st, "bad-op")
-      else (st, toString (hashString Gen.NameOrder.hashInit Gen.NameOrder.hashShift b n))
+      else (st, toString (Tree.params.hash b n))
     | _, _ => (st, "bad-op")
   | _ => (st, "bad-op")
 
